@@ -5,11 +5,11 @@ CONSTANTS
   Shar0 <- MCShar0
   Rsv0 <- MCRsv0
   Isol0 <- MCIsol0
-  Classes <- MCClasses
+  Classes <- MCClassesQ
   c1 = c1
   c2 = c2
   c3 = c3
   Ctr = {c1, c2, c3}
-  StrictReserve = FALSE
+  StrictReserve = TRUE
 SYMMETRY Symm
-INVARIANTS Inv_LiveHoldsGrantStrict
+INVARIANTS Inv_ReinstateAnyOrder
